@@ -88,7 +88,8 @@ def _blackbox(case, ctx):
     rng = np.random.default_rng([case["dseed"], 1717])
     ls = LABELSETS[case["labels"]]
     k = len(ls[3:].split(",")) if isinstance(ls, str) else len(ls)
-    X, cidx, _ = pzoo.make_panel(rng, case["ni"], case["nc"], case["nt"], classes=k)
+    cix = ["default", "default", "one-based", "offset"][case["dseed"] % 4]
+    X, cidx, _ = pzoo.make_panel(rng, case["ni"], case["nc"], case["nt"], classes=k, cell_index=cix)
     if case["unbalanced"]:
         cidx = np.where(rng.random(len(cidx)) < 0.6, 0, cidx)
         cidx[:k] = np.arange(k)
@@ -103,7 +104,7 @@ def _blackbox(case, ctx):
         cidx[:2] = rare
     y, vals = _labels(case["labels"], cidx, k)
     ytrain = pd.Series(y) if case["as_series"] else y
-    Xte, cte, _ = pzoo.make_panel(rng, 9, case["nc"], case["nt"], classes=k)
+    Xte, cte, _ = pzoo.make_panel(rng, 9, case["nc"], case["nt"], classes=k, cell_index=cix)
     yte, _ = _labels(case["labels"], cte, k)
     clf = pzoo.build(name, case["eseed"])
     if case["dseed"] % 4 == 1:
